@@ -12,7 +12,7 @@
    out-of-fuel run is the distinguished outcome OOOF / EOOF, never a normal value. *)
 From Coq Require Import ZArith NArith List Floats Lia.
 Require Import Csvq.Model.Base Csvq.Model.Value Csvq.Model.Compare Csvq.Model.Arith Csvq.Model.Proc Csvq.Model.ProcSpec.
-Require Import Csvq.Proofs.ProcSim Csvq.Proofs.ProcLocal Csvq.Proofs.ProcKeep Csvq.Proofs.ProcFlow Csvq.Proofs.C15.
+Require Import Csvq.Proofs.ProcSim Csvq.Proofs.ProcLocal Csvq.Proofs.ProcKeep Csvq.Proofs.ProcFlow Csvq.Proofs.ProcPure Csvq.Proofs.C15.
 Import ListNotations.
 Open Scope Z_scope.
 
@@ -133,6 +133,23 @@ Theorem C15_invocation_independent_of_pool : forall p1 p2 n e (s1 : gst (heapM p
   out (snd (eval (heapM p1) n e s1)) = out (snd (eval (heapM p2) n e s2)).
 Proof. exact invocation_independent_of_pool. Qed.
 
+(* An invocation of a function that writes nothing but its own parameters and locals (pure_fd: assignments
+   only to its parameters, literal defaults, no PRINT / DISPOSE / cursor or table updates; the functions it
+   can reach are of the same kind) leaves the caller's chain and the output EXACTLY as they were ... *)
+Theorem C15_pure_invocation_leaves_scope : forall n fd vs s r s', pure_fd fd = true -> store_pure (frames s) ->
+  call pureM n fd vs s = (r, s') -> frames s' = frames s /\ out s' = out s.
+Proof. exact pure_call_leaves_scope. Qed.
+Print Assumptions C15_pure_invocation_leaves_scope.
+
+(* ... so for such functions the rows of a query can be evaluated in any order, one after the other or each
+   alone from the calling scope (Model.Proc.call_on_rows, what the harness compares with cpu 4): every row
+   gets the same result -- on the pooled heap, for every pool policy *)
+Theorem C15_concurrent_rows_independent : forall policy n f rows (s : gst (heapM policy)),
+  hinv (ms s) -> store_pure (h_view (ms s)) ->
+  seq_rows (heapM policy) n f rows s = call_on_rows (heapM policy) n f rows s.
+Proof. exact heap_rows_sequential. Qed.
+Print Assumptions C15_concurrent_rows_independent.
+
 (* ==== 4. flow_spec ============================================================================================ *)
 (* Model/ProcSpec.v gives the control statements their documented meaning as jumps (continuations; no
    flow value is ever returned or tested there): BREAK -> after the innermost loop, CONTINUE -> its next
@@ -236,6 +253,16 @@ Example C15_ex_recursion :
 Proof. vm_compute. reflexivity. Qed.
 Example C15_ex_exit_code :
   exit_code (fst (run_heap 100 [SIf [(PLit (VTern TT), [SExit 3])] []; SPrint (lit 7)])) = 3.
+Proof. vm_compute. reflexivity. Qed.
+
+(* the hypotheses of the two theorems about pure invocations are satisfiable: a recursive function with a
+   loop on its parameters and a shadowing local *)
+Example C15_ex_pure :
+  pure_fd ([(n_, None); (i_, Some (lit 0))],
+           [SVar a_ (Some (PVar n_));
+            SWhile (PCmp OpLt (PVar i_) (lit 3)) [SExpr (PAssign i_ (PArith APlus (PVar i_) (lit 1))); SVar a_ (Some (lit 0))];
+            SIf [(PCmp OpGt (PVar n_) (lit 1), [SReturn (PArith AMul (PVar n_) (PCall f_ [PArith AMinus (PVar n_) (lit 1)]))])] [];
+            SReturn (lit 1)]) = true.
 Proof. vm_compute. reflexivity. Qed.
 
 (* the grammar's contexts: RETURN outside a function, BREAK outside a loop, EXIT inside a function are rejected *)
